@@ -215,6 +215,7 @@ func (w *linuxWriter) writeCombinedFile(id oid.ID, p string, data []byte) error 
 		}
 	}
 	if err != nil {
+		w.batchLock.Unlock()
 		return err
 	}
 	err = sb.write(id, p, data)
